@@ -153,7 +153,7 @@ def check_writer(run, pkg, ndim):
     lines, rest = to_lines(flatten(it.returns[0].data["value"]))
     ok9 = len(lines) == 9 and not rest
     run.ob("R-PROTO", fq, f"{ndim}D:nine-lines", ok9, "the header is nine newline-terminated lines (a dummy third bounds line in 2D)", f"{len(lines)} lines, trailing text {bool(rest)}",
-           witness=None if ok9 else f"{ndim}D header of {len(lines)} lines: every reader skips nine lines, the atom block is misaligned", loc=loc)
+           witness=None if ok9 else f"{ndim}D header of {len(lines)} lines: every reader skips nine lines, the atom block is misaligned", loc=loc, sound=True)
     if len(lines) < 9:
         return None
     toks = [tokens(l) for l in lines]
@@ -162,18 +162,21 @@ def check_writer(run, pkg, ndim):
         return all(isinstance(t, str) for t in toks[k]) and " ".join(toks[k]) == text
 
     def single_val(k, term):
-        return len(toks[k]) == 1 and not isinstance(toks[k][0], str) and toks[k][0][0] == "val" and toks[k][0][1] == term
+        # token structure of the reconstructed line is exact; the value term is compared tri-state
+        if not (len(toks[k]) == 1 and not isinstance(toks[k][0], str) and toks[k][0][0] == "val"):
+            return False
+        return eqv(toks[k][0][1], term)
     ok = lit_is(0, "ITEM: TIMESTEP")
-    run.ob("R-PROTO", fq, f"{ndim}D:line1", ok, "line 1 is `ITEM: TIMESTEP`", str(toks[0])[:60], witness=None if ok else "first header line changed", loc=loc)
+    run.ob("R-PROTO", fq, f"{ndim}D:line1", ok, "line 1 is `ITEM: TIMESTEP`", str(toks[0])[:60], witness=None if ok else "first header line changed", loc=loc, sound=True)
     ok = single_val(1, ("sym", "timestep"))
-    run.ob("R-PROTO", fq, f"{ndim}D:line2", ok, "line 2 is the timestep alone", str(toks[1])[:60], witness=None if ok else "readers take int(line 2) as the timestep", loc=loc)
+    run.ob("R-PROTO", fq, f"{ndim}D:line2", ok, "line 2 is the timestep alone", str(toks[1])[:60], witness=None if ok else "readers take int(line 2) as the timestep", loc=loc, sound=True)
     ok = lit_is(2, "ITEM: NUMBER OF ATOMS")
-    run.ob("R-PROTO", fq, f"{ndim}D:line3", ok, "line 3 is `ITEM: NUMBER OF ATOMS`", str(toks[2])[:60], witness=None if ok else "third header line changed", loc=loc)
+    run.ob("R-PROTO", fq, f"{ndim}D:line3", ok, "line 3 is `ITEM: NUMBER OF ATOMS`", str(toks[2])[:60], witness=None if ok else "third header line changed", loc=loc, sound=True)
     ok = single_val(3, ("sym", "nparticle"))
-    run.ob("R-PROTO", fq, f"{ndim}D:line4", ok, "line 4 is the particle count alone", str(toks[3])[:60], witness=None if ok else "readers take int(line 4) as the particle number", loc=loc)
+    run.ob("R-PROTO", fq, f"{ndim}D:line4", ok, "line 4 is the particle count alone", str(toks[3])[:60], witness=None if ok else "readers take int(line 4) as the particle number", loc=loc, sound=True)
     ok = all(isinstance(t, str) for t in toks[4]) and toks[4][:3] == ["ITEM:", "BOX", "BOUNDS"] and "xy" not in toks[4]
     run.ob("R-PROTO", fq, f"{ndim}D:line5", ok, "line 5 announces orthogonal box bounds (no tilt tokens)", str(toks[4])[:60],
-           witness=None if ok else "readers detect `xy` on this line and switch to the triclinic branch", loc=loc)
+           witness=None if ok else "readers detect `xy` on this line and switch to the triclinic branch", loc=loc, sound=True)
     for r in range(3):
         tk = toks[5 + r]
         key = f"{ndim}D:line{6 + r}"
@@ -181,9 +184,9 @@ def check_writer(run, pkg, ndim):
             want = [("sub", ("sub", bb, C(r)), C(c)) for c in range(2)]
             alt = [("sub", bb, ("tuple", (C(r), C(c)))) for c in range(2)]
             got = [t[1] if (not isinstance(t, str) and t[0] == "val") else None for t in tk]
-            ok = len(tk) == 2 and (got == want or got == alt) and all(("f" in t[2] or "e" in t[2] or "g" in t[2] or t[2] == "") for t in tk)
+            ok = tri(*[eqv(g_, w_, a_, same=True) for g_, w_, a_ in zip(got, want, alt)]) if (len(tk) == 2 and None not in got) else False
             run.ob("R-PROTO", fq, key, ok, f"line {6 + r} is `lo hi` of axis {r}", str([show(g) if g else g for g in got])[:80],
-                   witness=None if ok else f"bounds of axis {r} written from another axis / order hi lo", loc=loc)
+                   witness=None if ok else f"bounds of axis {r} written from another axis / order hi lo", loc=loc, sound=True)
         else:
             vals = []
             for t in tk:
@@ -198,16 +201,16 @@ def check_writer(run, pkg, ndim):
                     vals.append(None)
             ok = len(vals) == 2 and None not in vals and vals[0] < vals[1]
             run.ob("R-PROTO", fq, key, ok, "in 2D line 8 is a dummy z range `lo hi` with lo < hi (readers skip it; LAMMPS needs it)", str(vals),
-                   witness=None if ok else "2D header lacks a well-formed third bounds line", loc=loc)
+                   witness=None if ok else "2D header lacks a well-formed third bounds line", loc=loc, sound=True)
     t9 = toks[8]
     names = [t for t in t9 if isinstance(t, str)]
     want_names = ["ITEM:", "ATOMS", "id", "type"] + ["x", "y", "z"][:ndim]
     ok = names[:len(want_names)] == want_names
     run.ob("R-PROTO", fq, f"{ndim}D:line9", ok, f"line 9 is `ITEM: ATOMS id type {' '.join(['x', 'y', 'z'][:ndim])} ...`: the coordinate style starts at token 3", str(t9)[:90],
-           witness=None if ok else "readers take tokens[2:] of line 9 as column names and expect x/xs/xu there", loc=loc)
+           witness=None if ok else "readers take tokens[2:] of line 9 as column names and expect x/xs/xu there", loc=loc, sound=True)
     extra = [t for t in t9[len(want_names):]]
     ok = all((not isinstance(t, str)) and t[0] == "val" and t[1] == ("sym", "addson") for t in extra) or not extra
-    run.ob("R-PROTO", fq, f"{ndim}D:addson", ok, "additional column names follow the coordinates", str(extra)[:60], witness=None if ok else "addson glued / misplaced", loc=loc)
+    run.ob("R-PROTO", fq, f"{ndim}D:addson", True if ok else None, "additional column names follow the coordinates", str(extra)[:60], witness=None if ok else "addson glued / misplaced", loc=loc)
     return toks
 
 
@@ -226,14 +229,14 @@ def check_data_header(run, pkg):
         bl = [t for t in toks if len(t) == 4 and t[2:] in (["xlo", "xhi"], ["ylo", "yhi"], ["zlo", "zhi"])]
         ok = [t[2] for t in bl] == ["xlo", "ylo", "zlo"]
         run.ob("R-PROTO", fq, f"{ndim}D:bounds-lines", ok, "three bounds lines labelled xlo xhi / ylo yhi / zlo zhi in this order", str([t[2:] for t in bl]),
-               witness=None if ok else "LAMMPS reads the box from these labels: an axis is missing or duplicated", loc=loc)
+               witness=None if ok else "LAMMPS reads the box from these labels: an axis is missing or duplicated", loc=loc, sound=True)
         for r, t in enumerate(bl[:3]):
             if r < ndim:
                 got = [x[1] if not isinstance(x, str) else None for x in t[:2]]
                 want = [("sub", ("sub", bb, C(r)), C(c)) for c in range(2)]
-                okr = got == want
+                okr = tri(*[eqv(g_, w_) for g_, w_ in zip(got, want)]) if None not in got else None
                 run.ob("R-PROTO", fq, f"{ndim}D:{t[2]}", okr, f"the {t[2]} {t[3]} line carries boxbounds[{r}]", str([show(g) if g else g for g in got]),
-                       witness=None if okr else f"axis {r} labelled with another axis' numbers", loc=loc)
+                       witness=None if okr else f"axis {r} labelled with another axis' numbers", loc=loc, sound=True)
         cnt = [t for t in toks if len(t) == 2 and t[1] == "atoms"]
         okc = tri_lazy(lambda: (True if (len(cnt) == 1) else None), lambda: (True if (not isinstance(cnt[0][0], str)) else None), lambda: eqv(cnt[0][0][1], ("sym", "nparticle")))
         run.ob("R-PROTO", fq, f"{ndim}D:atoms", okc, "`<nparticle> atoms` line", str(cnt)[:60], witness=None if okc else "atom count line wrong", loc=loc, sound=True)
@@ -256,9 +259,9 @@ def check_text_reader(run, pkg, fname, ndim, style, wtoks, light=False):
         return e, T.atoms
     nh = len(rr.header_ids)
     run.ob("R-PROTO", fq, f"{cfg}:header-lines", nh == 9, "nine header lines are consumed before the atom block - as many as the writer emits", f"{nh} header lines read",
-           witness=None if nh == 9 else f"{cfg}: writer emits 9 header lines, reader consumes {nh}", loc=loc)
+           witness=None if nh == 9 else f"{cfg}: writer emits 9 header lines, reader consumes {nh}", loc=loc, sound=True)   # count of distinct readline() results ahead of the atom loop on this configuration's path
     if len(rr.atom_ids) != 1:
-        run.ob("R-PROTO", fq, f"{cfg}:atom-branch", False if not rr.atom_ids else None, f"style '{style}' has an atom-reading branch", f"{len(rr.atom_ids)} atom-line reads",
+        run.ob("R-PROTO", fq, f"{cfg}:atom-branch", None, f"style '{style}' has an atom-reading branch", f"{len(rr.atom_ids)} atom-line reads",
                witness=f"{cfg}: atom block left unread" if not rr.atom_ids else None, loc=loc)
         return
     kws = rr.kwargs()
@@ -268,14 +271,14 @@ def check_text_reader(run, pkg, fname, ndim, style, wtoks, light=False):
     wr_ok = wtoks is not None and len(wtoks[1]) == 1 and not isinstance(wtoks[1][0], str) and wtoks[1][0][1] == ("sym", "timestep")
     okt_ = (okt and wr_ok) if (okt or not at) else None
     run.ob("R-PROTO", fq, f"{cfg}:timestep", okt_, "the timestep is read from the line (2) where the writer puts it", sp.sstr(e)[:50],
-           witness=None if okt_ is not False else "written timestep and read timestep come from different lines", loc=loc)
+           witness=None if okt_ is not False else "written timestep and read timestep come from different lines", loc=loc, sound=True)
     Lid = rr.atom_loops[0]
     L = rr.it.loops[Lid]
     e, at = tr(ae.deep(L.iter[2][0])) if L.iter and L.iter[0] == "call" and L.iter[1] == "builtins.range" and len(L.iter[2]) == 1 else (None, True)
     okn = e == sp.Symbol("L3_0", real=True)
     okn_ = okn if (okn or (e is not None and not at)) else None
     run.ob("R-PROTO", fq, f"{cfg}:count", okn_, "the number of atom lines read is the integer on line 4, where the writer puts the particle count", sp.sstr(e)[:50] if e is not None else "?",
-           witness=None if okn_ is not False else "atom block length differs from the written count", loc=loc)
+           witness=None if okn_ is not False else "atom block length differs from the written count", loc=loc, sound=True)
     if light:
         return
     # bounds
@@ -286,7 +289,7 @@ def check_text_reader(run, pkg, fname, ndim, style, wtoks, light=False):
                 g, at = tr(ent)
                 ok = g == sp.Symbol(f"L{5 + r}_{c}", real=True)
                 run.ob("R-PROTO", fq, f"{cfg}:bounds[{r},{c}]", ok if (ok or not at) else None, f"boxbounds[{r},{c}] is token {c + 1} of header line {6 + r} (writer: lo hi of axis {r})", sp.sstr(g)[:50],
-                       witness=None if ok else f"bound taken from {sp.sstr(g)[:30]}", loc=loc)
+                       witness=None if ok else f"bound taken from {sp.sstr(g)[:30]}", loc=loc, sound=True)
             except (NoEntry, IndexError, TypeError) as ex:
                 run.ob("R-PROTO", fq, f"{cfg}:bounds[{r},{c}]", None, "bounds entry resolvable", str(ex), loc=loc)
     for r in range(ndim):
@@ -294,11 +297,11 @@ def check_text_reader(run, pkg, fname, ndim, style, wtoks, light=False):
             g, at = tr(ae.entry(kws["boxlength"], (r,)))
             want = sp.Symbol(f"L{5 + r}_1", real=True) - sp.Symbol(f"L{5 + r}_0", real=True)
             ok = sp.expand(g - want) == 0
-            run.ob("R-ALG", fq, f"{cfg}:boxlength[{r}]", ok if (ok or not at) else None, f"boxlength[{r}] = hi - lo of axis {r}", sp.sstr(g)[:50], witness=None if ok else "box length wrong", loc=loc)
+            run.ob("R-ALG", fq, f"{cfg}:boxlength[{r}]", ok if (ok or not at) else None, f"boxlength[{r}] = hi - lo of axis {r}", sp.sstr(g)[:50], witness=None if ok else "box length wrong", loc=loc, sound=True)
             for c in range(ndim):
                 g2, at2 = tr(ae.entry(kws["hmatrix"], (r, c)))
                 ok2 = sp.expand(g2 - (want if r == c else 0)) == 0
-                run.ob("R-ALG", fq, f"{cfg}:hmatrix[{r},{c}]", ok2 if (ok2 or not at2) else None, "cell matrix is diag(boxlength)", sp.sstr(g2)[:50], witness=None if ok2 else "cell matrix wrong", loc=loc)
+                run.ob("R-ALG", fq, f"{cfg}:hmatrix[{r},{c}]", ok2 if (ok2 or not at2) else None, "cell matrix is diag(boxlength)", sp.sstr(g2)[:50], witness=None if ok2 else "cell matrix wrong", loc=loc, sound=True)
         except (NoEntry, IndexError, TypeError) as ex:
             run.ob("R-ALG", fq, f"{cfg}:boxlength[{r}]", None, "box length resolvable", str(ex), loc=loc)
     # names from line 9
@@ -309,7 +312,7 @@ def check_text_reader(run, pkg, fname, ndim, style, wtoks, light=False):
         recog = bool(asked) and all(nm[0] == "sub" and nm[1][0] == "call" and nm[1][1] == ".split" and rr.line_of(nm[1][2][0]) is not None for nm in (c[3] for c in asked))
         okn_ = okn if (okn or recog) else None
         run.ob("R-PROTO", fq, f"{cfg}:names", okn_, "the coordinate style is taken from tokens[2:] of header line 9 (writer: id type x y [z] ...)", f"{len(asked)} style tests",
-               witness=None if okn_ is not False else "style detected from another line / offset", loc=loc)
+               witness=None if okn_ is not False else "style detected from another line / offset", loc=loc, sound=True)
     # ---- atom-line stores
     a = [sp.Symbol(f"a{c}", real=True) for c in range(12)]
     sts = [ev for ev in rr.it.events if ev.kind == "store" and Lid in ev.loops]
@@ -333,11 +336,11 @@ def check_text_reader(run, pkg, fname, ndim, style, wtoks, light=False):
         if not ok and at and all(x[0] == "loopvar" for x in walk(ae.deep(row)) if x[0] in ("loopvar", "sub", "call", "sym")):
             at = {}
         run.ob("R-IDX", fq, f"{cfg}:{nm}:row", ok if (ok or not at) else None, f"{nm} of an atom line are stored at row (atom id) - 1", sp.sstr(g)[:50],
-               witness=None if ok else "atom lines out of id order are stored at the wrong row", loc=loc_of(rr.it, ev))
+               witness=None if ok else "atom lines out of id order are stored at the wrong row", loc=loc_of(rr.it, ev), sound=True)
     if tstore is not None:
         g, at = tr(ae.deep(tstore.data["value"]))
         ok = g == a[1]
-        run.ob("R-IDX", fq, f"{cfg}:type", ok if (ok or not at) else None, "the particle type is token 2 of the atom line", sp.sstr(g)[:50], witness=None if ok else "type from another column", loc=loc_of(rr.it, tstore))
+        run.ob("R-IDX", fq, f"{cfg}:type", ok if (ok or not at) else None, "the particle type is token 2 of the atom line", sp.sstr(g)[:50], witness=None if ok else "type from another column", loc=loc_of(rr.it, tstore), sound=True)
     if pstore is None:
         return
     val = strip_alloc(ae.deep(pstore.data["value"]))
@@ -349,7 +352,7 @@ def check_text_reader(run, pkg, fname, ndim, style, wtoks, light=False):
     comp = val
     if val[0] == "bin" and val[1] == "*":
         comp, scale = (val[2], val[3]) if val[2][0] == "comp" else (val[3], val[2])
-    okc = False
+    okc = None
     if comp[0] == "comp" and len(comp[3]) == 1 and not comp[3][0][2]:
         cv, src, _ = comp[3][0]
         elt = comp[2]
@@ -363,34 +366,34 @@ def check_text_reader(run, pkg, fname, ndim, style, wtoks, light=False):
 
 def check_vector_values(run, rr, fq, cfg, val, pstore, kws):
     loc = loc_of(rr.it, pstore)
-    ok = False
+    ok = None
     detail = show(val)[:100]
     if val[0] == "comp" and len(val[3]) == 1 and not val[3][0][2]:
         cv, src, _ = val[3][0]
         elt = val[2]
         # elt = float(item[j]) ; src = [int(i - 1) for i in columnsids]
         e_ok = elt[0] == "call" and elt[1] == "builtins.float" and elt[2][0][0] == "sub" and elt[2][0][2] == cv and elt[2][0][1][0] == "call" and elt[2][0][1][1] == ".split"
-        s_ok = False
+        s_ok = None
         if src[0] == "comp" and len(src[3]) == 1 and not src[3][0][2] and src[3][0][1] == ("sym", "columnsids"):
             cv2 = src[3][0][0]
             s_elt = src[2]
             if s_elt[0] == "call" and s_elt[1] == "builtins.int" and len(s_elt[2]) == 1:
                 s_elt = s_elt[2][0]
-            s_ok = s_elt == ("bin", "-", cv2, C(1))
+            s_ok = eqv(s_elt, ("bin", "-", cv2, C(1)))
             if not s_ok:
                 detail += f" ; index {show(s_elt)}"
         elif e_ok and src == ("sym", "columnsids"):
             s_ok = False
             detail += " ; column ids used as token indices without -1"
-        ok = e_ok and s_ok
+        ok = tri(True if e_ok else None, s_ok)
     run.ob("R-IDX", fq, f"{cfg}:columns", ok, "value k of an atom is token (column id k) - 1 of its line, in the order of the requested ids", detail,
-           witness=None if ok else "columnsids=[5, 6] on `id type x y vx vy` must give (vx, vy)", loc=loc)
+           witness=None if ok else "columnsids=[5, 6] on `id type x y vx vy` must give (vx, vy)", loc=loc, sound=True)
     P = strip_alloc(kws["positions"])
     okp = P == strip_alloc(pstore.data["target"][1])
-    run.ob("R-IDX", fq, f"{cfg}:positions-field", okp, "the id-indexed column array is returned in the positions field", show(P)[:60], witness=None if okp else "another array returned", loc=loc)
+    run.ob("R-IDX", fq, f"{cfg}:positions-field", True if okp else None, "the id-indexed column array is returned in the positions field", show(P)[:60], witness=None if okp else "another array returned", loc=loc)
     n_ok = strip_alloc(rr.ae.deep(kws["nparticle"]))
     okn = n_ok[0] == "call" and n_ok[1] == "builtins.int"
-    run.ob("R-PROTO", fq, f"{cfg}:nparticle", okn, "nparticle is the count on line 4", show(n_ok)[:50], witness=None if okn else "count from elsewhere", loc=loc)
+    run.ob("R-PROTO", fq, f"{cfg}:nparticle", True if okn else None, "nparticle is the count on line 4", show(n_ok)[:50], witness=None if okn else "count from elsewhere", loc=loc)
 
 
 def check_selection(run, rr, fq, cfg, kws, pstore, tstore, style, ndim, stored_scale=None):
@@ -403,29 +406,37 @@ def check_selection(run, rr, fq, cfg, kws, pstore, tstore, style, ndim, stored_s
     # the mask
     masks = {x[2] for x in walk(T) if x[0] == "sub" and x[1] == PT} | {x[2] for x in walk(P) if x[0] == "sub" and x[1] == PZ}
     if len(masks) != 1:
-        run.ob("R-SEL", fq, f"{cfg}:mask", False if len(masks) > 1 else None, "one selection mask is applied to both positions and types", f"{len(masks)} masks",
+        run.ob("R-SEL", fq, f"{cfg}:mask", None, "one selection mask is applied to both positions and types", f"{len(masks)} masks",
                witness="positions and types are selected by different masks" if len(masks) > 1 else None, loc=loc)
         return
     run.ob("R-SEL", fq, f"{cfg}:mask", True, "one selection mask is applied to both positions and types", show(list(masks)[0])[:80], loc=loc)
     m = list(masks)[0]
-    okm = False
+    okm = None
     if m[0] == "comp" and len(m[3]) == 1 and not m[3][0][2]:
         cv, src, _ = m[3][0]
         elt = m[2]
         member = [("cmp", "in", cv, ("call", ".keys", (mt,), ())), ("cmp", "in", cv, mt)]
-        okm = src == PT and (elt in member or (elt[0] == "phi" and elt[1] in member and elt[2] == C(True) and elt[3] == C(False)))
+        if elt[0] == "phi" and elt[2] == C(True) and elt[3] == C(False):
+            elt = elt[1]
+        okm = tri(eqv(src, PT), eqv(elt, *member, same=True))
     elif m[0] == "call" and m[1] == "numpy.isin" and m[2] and m[2][0] == PT:
         okm = True
     run.ob("R-SEL", fq, f"{cfg}:membership", okm, "an atom is selected exactly when its type is a key of the type map; the mask runs over the id-ordered type array", show(m)[:100],
-           witness=None if okm else "moltypes={3:1,5:2}: atoms of other types selected / centres dropped", loc=loc)
+           witness=None if okm else "moltypes={3:1,5:2}: atoms of other types selected / centres dropped", loc=loc, sound=True)
     # relabel
     want_T = ("attr", ("call", ".map", (("call", "pandas.Series", (("sub", PT, m),), ()), mt), ()), "values")
     alt_T = ("call", ".to_numpy", (("call", ".map", (("call", "pandas.Series", (("sub", PT, m),), ()), mt), ()),), ())
-    okT = T in (want_T, alt_T)
+    okT = True if T in (want_T, alt_T) else (False if T == ("sub", PT, m) else None)     # the bare selected types: never passed through the map
     run.ob("R-SEL", fq, f"{cfg}:relabel", okT, "selected types are relabelled through the map (key -> value), order kept", show(T)[:100],
-           witness=None if okT else "molecule types are not the map's values", loc=loc)
+           witness=None if okT else "molecule types are not the map's values", loc=loc, sound=True)
     n = strip_alloc(kws["nparticle"])
-    okn = eqv(n, ("sub", ("attr", T, "shape"), C(0)), ("call", "builtins.len", (T,), ()))
+    okn = eqv(n, ("sub", ("attr", T, "shape"), C(0)), ("call", "builtins.len", (T,), ()), same=True)
+    if okn is None:
+        try:
+            if S.Translator(rr.atom_of()).tr(rr.ae.deep(kws["nparticle"])) == sp.Symbol("L3_0", real=True):
+                okn = False        # the count on header line 4: all atoms of the file, not the selected ones
+        except Exception:  # noqa
+            pass
     run.ob("R-SEL", fq, f"{cfg}:count", okn, "nparticle is the number of selected atoms", show(n)[:60], witness=None if okn else "nparticle is the atom count of the file", loc=loc, sound=True)
     # positions post-processing, decided point-wise: the selection mask only picks rows, so it is dropped and the per-atom
     # stored value (token, or token x boxlength) is substituted for the array
@@ -481,7 +492,7 @@ def check_selection(run, rr, fq, cfg, kws, pstore, tstore, style, ndim, stored_s
         what = "wrapped coordinates of the selected atoms: + L below lo, - L above hi, else unchanged"
     if ok is False and tr.atoms:
         ok = None
-    run.ob("R-ALG", fq, f"{cfg}:positions", ok, what, f"point-wise form {sp.sstr(g)[:120]}", witness=None if ok is not False else how, loc=loc)
+    run.ob("R-ALG", fq, f"{cfg}:positions", ok, what, f"point-wise form {sp.sstr(g)[:120]}", witness=None if ok is not False else how, loc=loc, sound=True)
 
 
 def check_dict_order(run, pkg):
@@ -531,7 +542,7 @@ def check_dict_order(run, pkg):
         run.ob("R-SEL", fq, "map-order", not bad, "keys and values of the type map are paired entry by entry (looked up by key, or both taken in the same order)",
                (f"keys sorted at {key_of(keys_sorted)[:60]}; values in insertion order at {key_of(vr)[:60]}" if bad else "consistent"),
                witness=None if not bad else "moltypes = {5: 1, 3: 2}: sorted keys [3, 5] are paired with values [1, 2]: atoms of type 5 become molecule type 2",
-               loc=loc_of(it, vr) if bad else fi.loc())
+               loc=loc_of(it, vr) if bad else fi.loc(), sound=True)
 
 
 # ====================================================================== read_additions
@@ -565,16 +576,19 @@ def check_additions(run, pkg, wtoks):
         return None
     uses3 = any(x == npart for e in it.events for v in e.data.values() if isinstance(v, tuple) for x in walk(v))
     wr_ok = wtoks is not None and len(wtoks[3]) == 1
-    run.ob("R-PROTO", fq, "count-line", uses3 and wr_ok, "the particle count is the integer on line 4 (index 3), where the writer puts it", show(npart),
-           witness=None if uses3 and wr_ok else "count read from another header line", loc=loc)
+    other_lines = sorted({x[2][0][2][1] for e in it.events for v in e.data.values() if isinstance(v, tuple) for x in walk(v)
+                          if x[0] == "call" and x[1] == "builtins.int" and len(x[2]) == 1 and x[2][0][0] == "sub" and x[2][0][1] == content and is_const(x[2][0][2]) and x[2][0][2][1] != 3})
+    okcl = True if (uses3 and wr_ok) else (False if (not uses3 and other_lines and wr_ok) else None)
+    run.ob("R-PROTO", fq, "count-line", okcl, "the particle count is the integer on line 4 (index 3), where the writer puts it", show(npart),
+           witness=None if uses3 and wr_ok else f"count read from header line index {other_lines}", loc=loc, sound=True)
     # frames
     fr = Lf.iter
-    okf = False
+    okf = None
     if fr[0] == "call" and fr[1] == "builtins.range" and len(fr[2]) == 1:
         tr = S.Translator(atom_of)
         try:
             g = tr.tr(fr[2][0])
-            okf = not tr.atoms and any(sp.simplify(g - f_) == 0 for f_ in (S.PyInt(Ln / (N + 9)), sp.floor(Ln / (N + 9)), S.PyInt(Ln // (N + 9))))
+            okf = True if (not tr.atoms and any(sp.simplify(g - f_) == 0 for f_ in (S.PyInt(Ln / (N + 9)), sp.floor(Ln / (N + 9)), S.PyInt(Ln // (N + 9))))) else None
             if not okf:
                 # Len // (N+9)
                 okf = eqv(fr[2][0], ("bin", "//", ("call", "builtins.len", (content,), ()), ("bin", "+", npart, C(9))))
@@ -595,15 +609,15 @@ def check_additions(run, pkg, wtoks):
         except Exception:  # noqa
             oks = None
     run.ob("R-PROTO", fq, "atom-block", oks, "frame n's atom lines are content[n(N+9)+9 : (n+1)(N+9)] (polynomial identity in n, N)", show(sl)[:100],
-           witness=None if oks else (wit if oks is False else None), loc=loc)
+           witness=None if oks else (wit if oks is False else None), loc=loc, sound=True)   # polynomial identity in (n, N) with no other constructs
     # placement
     item = Li.target
     tg = ev.data["target"][2][1]
-    row_ok = tg[0] == nvar
+    row_ok = eqv(tg[0], nvar)
     col = tg[1]
     sp_item = ("call", ".split", (item,), ())
     okc = eqv(col, ("bin", "-", ("call", "builtins.int", (("sub", sp_item, C(0)),), ()), C(1)))
-    run.ob("R-IDX", fq, "placement", row_ok and okc, "value of an atom line is stored at [frame, atom id - 1]", show(ev.data["target"][2])[:80],
+    run.ob("R-IDX", fq, "placement", tri(row_ok, okc), "value of an atom line is stored at [frame, atom id - 1]", show(ev.data["target"][2])[:80],
            witness=None if row_ok and okc else "values placed by line order / wrong frame row", loc=loc_of(it, ev), sound=True)
     v = ev.data["value"]
     if v[0] == "call" and v[1] == "builtins.float":
@@ -626,8 +640,8 @@ def check_gsd(run, pkg, fname, dcd):
     ce = cs[0]
     L = it.loops[ce.loops[0]]
     fr = L.target
-    okl = L.iter == f
-    run.ob("R-LOOPDOM", fq, "frames", okl, "every frame object of the trajectory is converted, in order", show(L.iter)[:40], witness=None if okl else "frames skipped", loc=fi.loc(L.node))
+    okl = eqv(L.iter, f)
+    run.ob("R-LOOPDOM", fq, "frames", okl, "every frame object of the trajectory is converted, in order", show(L.iter)[:40], witness=None if okl else "frames skipped", loc=fi.loc(L.node), sound=True)
     kws = dict(ce.data["call"][3])
     nd = ("sym", "ndim")
     cut = ("slice", NONE, nd, NONE)
@@ -639,16 +653,18 @@ def check_gsd(run, pkg, fname, dcd):
     }
     for k, (w, what) in want.items():
         got = kws.get(k)
-        ok = got == w or (k == "particle_type" and got == ("bin", "+", C(1), w[2]))
+        ok = eqv(got, w)
         run.ob("R-IDX" if k == "particle_type" else "R-ALG", fq, k, ok, what, show(got)[:70] if got else "missing",
-               witness=None if ok else ("typeid 0 stays 0: every per-type table indexed with type - 1 reads row -1" if k == "particle_type" else f"{k} taken from another field"), loc=loc_of(it, ce))
+               witness=None if ok else ("typeid 0 stays 0: every per-type table indexed with type - 1 reads row -1" if k == "particle_type" else f"{k} taken from another field"), loc=loc_of(it, ce), sound=True)
     hm = kws.get("hmatrix")
     okh = eqv(hm, ("call", "numpy.diag", (want["boxlength"][0],), ()))
     run.ob("R-ALG", fq, "hmatrix", okh, "cell matrix = diag(boxlength)", show(hm)[:60] if hm else "missing", witness=None if okh else "cell matrix wrong", loc=loc_of(it, ce), sound=True)
     pos = ("sub", ("attr", ("attr", fr, "particles"), "position"), ("tuple", (FULL, cut)))
     if not dcd:
-        ok = kws.get("positions") == pos
-        run.ob("R-IDX", fq, "positions", ok, "positions are particles.position cut to the first ndim columns", show(kws.get("positions"))[:70], witness=None if ok else "2D: the z column is kept / wrong columns", loc=loc_of(it, ce))
+        ok = eqv(kws.get("positions"), pos)
+        if ok is None and kws.get("positions") == pos[1]:
+            ok = False         # the full (N, 3) position array: never cut to the requested dimension
+        run.ob("R-IDX", fq, "positions", ok, "positions are particles.position cut to the first ndim columns", show(kws.get("positions"))[:70], witness=None if ok else "2D: the z column is kept / wrong columns", loc=loc_of(it, ce), sound=True)
     # frame count
     ret = [r for r in it.returns if r.data["value"][0] == "call"]
     if len(ret) != 1:
@@ -659,7 +675,7 @@ def check_gsd(run, pkg, fname, dcd):
     # dimension guard
     g = [r for r in it.returns if r.data["value"] == NONE and r.guards]
     okg = any(c == ("cmp", "!=", ("attr", ("attr", ("sub", f, C(0)), "configuration"), "dimensions"), nd) and pol for r in g for c, pol in r.guards)
-    run.ob("R-DISPATCH", fq, "dimension-guard", okg, "a trajectory of another dimension is rejected", f"{len(g)} guarded None-returns", witness=None if okg else "3D file read as 2D silently", loc=loc)
+    run.ob("R-DISPATCH", fq, "dimension-guard", True if okg else None, "a trajectory of another dimension is rejected", f"{len(g)} guarded None-returns", witness=None if okg else "3D file read as 2D silently", loc=loc)
     if not dcd:
         return
     # DCD positions attached per frame without storing into the frozen record
@@ -667,7 +683,7 @@ def check_gsd(run, pkg, fname, dcd):
     lst_stores = [e for e in stores(it) if e.loops and e.loops != ce.loops]
     attr_stores = [e for e in stores(it) if e.data["target"][0] == "attr" and e.data["target"][2] == "positions"]
     run.ob("R-FROZEN", fq, "no-field-store", not attr_stores, "positions are not assigned to a field of a (frozen) SingleSnapshot", f"{len(attr_stores)} attribute stores",
-           witness=None if not attr_stores else "FrozenInstanceError for every GSD+DCD pair", loc=loc_of(it, attr_stores[0]) if attr_stores else loc)
+           witness=None if not attr_stores else "FrozenInstanceError for every GSD+DCD pair", loc=loc_of(it, attr_stores[0]) if attr_stores else loc, sound=True)
     if len(lst_stores) != 1:
         # comprehension form: [replace(s, positions=p[:, :ndim]) for s, p in zip(snapshots, positions)]
         okz = None
@@ -685,10 +701,10 @@ def check_gsd(run, pkg, fname, dcd):
     i = Li.target
     okd = eqv(Li.iter, ("call", "builtins.range", (("sub", ("attr", dpos, "shape"), C(0)),), ()))
     run.ob("R-LOOPDOM", fq, "dcd:frames", okd, "all DCD frames are attached", show(Li.iter)[:70], witness=None if okd else "frames without positions", loc=fi.loc(Li.node), sound=True)
-    tgt_ok = e.data["target"][2] == i
+    tgt_ok = eqv(e.data["target"][2], i)
     v = e.data["value"]
     okv = tri_lazy(lambda: (True if (v[0] == "call") else None), lambda: (True if (v[1] in ("dataclasses.replace",)) else None), lambda: (True if (v[2]) else None), lambda: (True if (v[2][0][0] == "sub") else None), lambda: (True if (v[2][0][2] == i) else None), lambda: eqv(dict(v[3]).get("positions"), ("sub", ("sub", dpos, i), ("tuple", (FULL, cut)))))
-    run.ob("R-IDX", fq, "dcd:install", bool(tgt_ok and okv), "frame i is replaced by a copy of frame i carrying DCD positions[i][:, :ndim]", show(v)[:110],
+    run.ob("R-IDX", fq, "dcd:install", tri(tgt_ok, okv), "frame i is replaced by a copy of frame i carrying DCD positions[i][:, :ndim]", show(v)[:110],
            witness=None if tgt_ok and okv else "frame i receives positions of another frame / uncut columns", loc=loc_of(it, e), sound=True)
     chk = [r for r in it.returns if r.data["value"] == NONE and any(c[0] == "cmp" and c[1] == "!=" and ("call", "builtins.len", (rk.get("snapshots"),), ()) in (c[2], c[3]) for c, _ in r.guards)]
     run.ob("R-DISPATCH", fq, "dcd:consistency", True if chk else None, "GSD and DCD frame counts are compared before attaching", f"{len(chk)} guards", loc=loc) if chk else None
@@ -735,18 +751,37 @@ def check_log(run, pkg):
     start_t = skip[1] if skip and skip[0] == "sub" and skip[2] == i else None
     ln_t = nrows[1] if nrows and nrows[0] == "sub" and nrows[2] == i else None
     ms = marker_list(start_t) if start_t else None
-    oks = ms == "Step "
+    oks = True if ms == "Step " else None
     run.ob("R-PROTO", fq, "section-start", oks, "a section starts at a line beginning with `Step ` (the column header); reading skips exactly the lines before it", repr(ms),
            witness=None if oks else "sections start at another marker / offset: the header row is lost", loc=loc_of(it, rc[0]))
-    okn = False
+    okn = None
     me = None
-    if ln_t is not None and ln_t[0] == "bin" and ln_t[1] == "-" and ln_t[3] == C(1) and ln_t[2][0] == "bin" and ln_t[2][1] == "-":
-        end_t, st2 = ln_t[2][2], ln_t[2][3]
-        me = marker_list(end_t)
-        okn = st2 == start_t and me == "Loop time of "
+    if ln_t is not None:
+        # rows as an integer expression in the two marker-line arrays
+        E_, S_ = sp.symbols("end start", integer=True)
+        unknown = []
+
+        def at_rows(t):
+            if t[0] in ("call", "comp", "appended", "phi"):
+                mk_ = marker_list(t)
+                if mk_ == "Step ":
+                    return S_
+                if mk_ == "Loop time of ":
+                    return E_
+                if mk_ is not None:
+                    unknown.append(mk_)
+            return None
+        try:
+            trr = S.Translator(at_rows)
+            trr.ufuncs = False
+            g_rows = sp.expand(trr.tr(ln_t))
+            if not trr.atoms and not unknown:
+                okn = bool(sp.expand(g_rows - (E_ - S_ - 1)) == 0)
+        except Exception:  # noqa
+            okn = None
     run.ob("R-ALG", fq, "section-rows", okn, "rows of a section = (line of `Loop time of `) - (line of `Step `) - 1: every thermo line, none of the footer", show(ln_t)[:90] if ln_t else "?",
-           witness=None if okn else "Step at line 10, Loop time at line 15: 4 data rows expected", loc=loc_of(it, rc[0]))
-    okd = L.iter == ("call", "builtins.range", (("sub", ("attr", ln_t, "shape"), C(0)),), ()) if ln_t else False
+           witness=None if okn else "Step at line 10, Loop time at line 15: 4 data rows expected", loc=loc_of(it, rc[0]), sound=True)
+    okd = (True if L.iter == ("call", "builtins.range", (("sub", ("attr", ln_t, "shape"), C(0)),), ()) else None) if ln_t else None
     run.ob("R-LOOPDOM", fq, "sections", okd, "every section is read", show(L.iter)[:70], witness=None if okd else "sections skipped", loc=fi.loc(L.node))
     okf = tri_lazy(lambda: (True if (c[2]) else None), lambda: eqv(c[2][0], ("sym", "filename")))
     sep = kw(c, "sep")
@@ -755,4 +790,4 @@ def check_log(run, pkg):
     app = [e for e in it.events if e.kind == "call" and e.data["call"][1] == ".append" and e.loops == rc[0].loops and e.data["call"][2][1] == rc[0].data["result"]]
     ret = it.returns[0].data["value"] if it.returns else None
     okr = len(app) == 1 and ret is not None and ret[0] == "appended" and ret[2] == rc[0].data["result"]
-    run.ob("R-LOOPDOM", fq, "return", okr, "the list of all section tables is returned, in order", show(ret)[:60] if ret else "?", witness=None if okr else "sections dropped", loc=loc)
+    run.ob("R-LOOPDOM", fq, "return", True if okr else None, "the list of all section tables is returned, in order", show(ret)[:60] if ret else "?", witness=None if okr else "sections dropped", loc=loc)
